@@ -646,3 +646,543 @@ Lemma entered_late_on_grid p t0 setup bs i c r :
   (c <= grid t0 p (S i) -> r = grid t0 p (S i)) /\
   (grid t0 p (S i) <= c -> r = c).
 Proof. apply any_use_on_grid, no_release_entered_late. Qed.
+
+(* ------------------------------------------------------------------ *)
+(* 6. Two threads: a release while a wait() is in progress              *)
+
+(* case analysis of one step: the operation and what is in progress *)
+Ltac csplit s o :=
+  let o' := fresh "o'" in
+  destruct o as [o'| |]; [destruct o'|..]; unfold cstep;
+  destruct (c_pend s) as [[[hd|] c]|] eqn:Epend.
+
+Lemma crun_app s h1 h2 : crun s (h1 ++ h2) = crun (crun s h1) h2.
+Proof. unfold crun. apply fold_left_app. Qed.
+
+Lemma crun_cons s o h : crun s (o :: h) = crun (cstep s o) h.
+Proof. reflexivity. Qed.
+
+Lemma clog_app h1 : forall s h2, clog s (h1 ++ h2) = clog s h1 ++ clog (crun s h1) h2.
+Proof.
+  induction h1 as [|o h1 IH]; intros s h2; [reflexivity|].
+  rewrite crun_cons. cbn [app clog].
+  destruct o as [[]| |]; destruct (c_pend s) as [[[hd|] c]|]; rewrite IH; reflexivity.
+Qed.
+
+Lemma conc_eta s : mkC (c_obj s) (c_now s) (c_pend s) (c_outside s) = s.
+Proof. destruct s. reflexivity. Qed.
+
+(* the halves of wait() compose to wait() when nothing lies between them *)
+Lemma wait_is_halves d now : rel_inv d ->
+  wait d now = match wait_begin d with
+               | Some h => fst (wait_end d h now)
+               | None => (d, now)
+               end.
+Proof.
+  intros Hi. unfold wait, wait_begin, wait_end.
+  destruct (live d) eqn:Hl; [|reflexivity].
+  destruct Hi as [[_ Hr]|[[Hl' _] _]]; [|congruence].
+  unfold hal_update. rewrite Hr. reflexivity.
+Qed.
+
+(* what a step does to `live` and to the number of releases, in any state *)
+Lemma wait_live d now : live (fst (wait d now)) = live d.
+Proof. unfold wait. destruct (live d) eqn:E; cbn; [reflexivity | exact E]. Qed.
+
+Lemma wait_released d now : released (fst (wait d now)) = released d.
+Proof. unfold wait. destruct (live d); reflexivity. Qed.
+
+Lemma wait_end_live d h now : live (fst (fst (wait_end d h now))) = live d.
+Proof. unfold wait_end. destruct h; reflexivity. Qed.
+
+Lemma wait_end_released d h now : released (fst (fst (wait_end d h now))) = released d.
+Proof. unfold wait_end. destruct h; reflexivity. Qed.
+
+Lemma cstep_live s o :
+  live (c_obj (cstep s o)) = live (c_obj s) && negb (crel o).
+Proof.
+  csplit s o; cbn [c_obj cflag step fst crel is_free negb enter exit_];
+    rewrite ?andb_true_r, ?andb_false_r, ?wait_live, ?wait_end_live; try reflexivity;
+    unfold free; destruct (live (c_obj s)) eqn:E; cbn; rewrite ?E; reflexivity.
+Qed.
+
+Lemma cstep_released s o :
+  released (c_obj (cstep s o)) =
+    if live (c_obj s) && crel o then S (released (c_obj s)) else released (c_obj s).
+Proof.
+  csplit s o; cbn [c_obj cflag step fst crel is_free enter exit_];
+    rewrite ?andb_true_r, ?andb_false_r, ?wait_released, ?wait_end_released; try reflexivity;
+    unfold free; destruct (live (c_obj s)) eqn:E; cbn; rewrite ?E; reflexivity.
+Qed.
+
+Lemma crun_live h : forall s,
+  live (c_obj (crun s h)) = live (c_obj s) && negb (existsb crel h).
+Proof.
+  induction h as [|o h IH]; intros s; [cbn; rewrite andb_true_r; reflexivity|].
+  rewrite crun_cons, IH, cstep_live. cbn [existsb]. rewrite negb_orb, andb_assoc. reflexivity.
+Qed.
+
+Lemma crun_released h : forall s,
+  released (c_obj (crun s h)) =
+    if live (c_obj s) && existsb crel h then S (released (c_obj s)) else released (c_obj s).
+Proof.
+  induction h as [|o h IH]; intros s; [cbn; rewrite andb_false_r; reflexivity|].
+  rewrite crun_cons, IH, cstep_live, cstep_released. cbn [existsb].
+  destruct (live (c_obj s)), (crel o); cbn; try reflexivity.
+Qed.
+
+(* the invariant of the object and the HAL side holds in every state of every
+   two-thread history *)
+Lemma wait_end_rel_inv d h now : rel_inv d -> rel_inv (fst (fst (wait_end d h now))).
+Proof.
+  intros [[Hl Hr]|[[Hl Ha] Hr]]; unfold wait_end, hal_update; destruct h; cbn [fst].
+  - left. split; assumption.
+  - left. split; assumption.
+  - right. rewrite Hr. repeat split; assumption.
+  - right. repeat split; assumption.
+Qed.
+
+Lemma cstep_rel_inv s o : rel_inv (c_obj s) -> rel_inv (c_obj (cstep s o)).
+Proof.
+  intros H. csplit s o; cbn [c_obj cflag]; try exact H; try (apply step_rel_inv, H);
+    apply wait_end_rel_inv, H.
+Qed.
+
+Lemma crun_rel_inv h : forall s, rel_inv (c_obj s) -> rel_inv (c_obj (crun s h)).
+Proof.
+  induction h as [|o h IH]; intros s H; [exact H|].
+  rewrite crun_cons. apply IH, cstep_rel_inv, H.
+Qed.
+
+(* for ANY two-thread history: released once iff some thread releases at all *)
+Lemma conc_released_once p t0 h :
+  let d := c_obj (crun (cinit (create p t0) t0) h) in
+  released d = (if existsb crel h then 1 else 0)%nat /\
+  live d = negb (existsb crel h) /\
+  (existsb crel h = true -> alarm d = None).
+Proof.
+  cbv zeta. rewrite crun_released, crun_live. cbn [cinit c_obj create live released andb].
+  repeat split. intros He.
+  pose proof (crun_rel_inv h (cinit (create p t0) t0) (create_rel_inv p t0)) as Hi.
+  pose proof (crun_live h (cinit (create p t0) t0)) as Hl.
+  cbn [cinit c_obj create live andb] in Hl. rewrite He in Hl. cbn in Hl.
+  destruct Hi as [[A _]|[[_ A] _]]; [congruence | exact A].
+Qed.
+
+(* the local variable `handle` of a wait() in progress is never None: its
+   first half returned at once in that case *)
+Definition pend_ok (p : option (option bool * Z)) : Prop :=
+  match p with
+  | Some (Some false, _) => False
+  | _ => True
+  end.
+
+Lemma cstep_pend_ok s o : pend_ok (c_pend s) -> pend_ok (c_pend (cstep s o)).
+Proof.
+  intros H. csplit s o; rewrite ?Epend in H; cbn [c_pend cflag]; rewrite ?Epend;
+    try exact H; try exact I.
+  unfold wait_begin. destruct (live (c_obj s)); exact I.
+Qed.
+
+(* for ANY two-thread history (releases anywhere, also between the halves of a
+   wait()): no wait() is ever left by an exception *)
+Lemma clog_never_raises h : forall s, pend_ok (c_pend s) ->
+  forall c t e, In (c, t, e) (clog s h) -> e = false.
+Proof.
+  induction h as [|o h IH]; intros s Hp c t e Hin; [destruct Hin|].
+  pose proof (cstep_pend_ok s o Hp) as Hp'.
+  cbn [clog] in Hin.
+  destruct o as [o'| |].
+  - destruct o'; destruct (c_pend s) as [[[hd|] c0]|]; try (eapply IH; eassumption).
+    destruct Hin as [Hin|Hin]; [injection Hin as _ _ <-; reflexivity | eapply IH; eassumption].
+  - destruct (c_pend s) as [[[hd|] c0]|]; eapply IH; eassumption.
+  - destruct (c_pend s) as [[[hd|] c0]|] eqn:E.
+    + destruct Hin as [Hin|Hin]; [|eapply IH; eassumption].
+      injection Hin as _ _ <-. destruct hd; [reflexivity | destruct Hp].
+    + destruct Hin as [Hin|Hin]; [injection Hin as _ _ <-; reflexivity | eapply IH; eassumption].
+    + eapply IH; eassumption.
+Qed.
+
+Lemma conc_never_raises p t0 h c t e :
+  In (c, t, e) (clog (cinit (create p t0) t0) h) -> e = false.
+Proof. apply clog_never_raises. exact I. Qed.
+
+(* a released object stays released under everything two threads can do; every
+   wait() on it, whole or in halves, is left at the instant it is called *)
+Definition cdead (s : conc) : Prop :=
+  dead (c_obj s) /\ released (c_obj s) = 1%nat /\
+  match c_pend s with Some (Some _, _) => False | _ => True end.
+
+Lemma cstep_pend_dead s o : live (c_obj s) = false ->
+  match c_pend s with Some (Some _, _) => False | _ => True end ->
+  match c_pend (cstep s o) with Some (Some _, _) => False | _ => True end.
+Proof.
+  intros Hl H. csplit s o; rewrite ?Epend in H; cbn [c_pend cflag]; rewrite ?Epend;
+    try exact H; try exact I.
+  unfold wait_begin. rewrite Hl. exact I.
+Qed.
+
+Lemma cstep_cdead s o : cdead s -> cdead (cstep s o).
+Proof.
+  intros (Hd & Hr & Hp).
+  assert (Hi : rel_inv (c_obj s)) by (right; split; assumption).
+  pose proof (cstep_rel_inv s o Hi) as Hi'.
+  pose proof (cstep_live s o) as Hl. destruct Hd as [Hl0 Ha0]. rewrite Hl0 in Hl. cbn in Hl.
+  split; [|split].
+  - destruct Hi' as [[A _]|[A _]]; [congruence | exact A].
+  - destruct Hi' as [[A _]|[_ A]]; [congruence | exact A].
+  - apply cstep_pend_dead; assumption.
+Qed.
+
+Lemma crun_cdead h : forall s, cdead s -> cdead (crun s h).
+Proof.
+  induction h as [|o h IH]; intros s H; [exact H|].
+  rewrite crun_cons. apply IH, cstep_cdead, H.
+Qed.
+
+Lemma clog_cdead h : forall s, cdead s ->
+  forall c t e, In (c, t, e) (clog s h) -> t = c /\ e = false.
+Proof.
+  induction h as [|o h IH]; intros s Hd c t e Hin; [destruct Hin|].
+  pose proof (cstep_cdead s o Hd) as Hd'.
+  destruct Hd as (Hdd & Hr & Hp).
+  cbn [clog] in Hin.
+  destruct o as [o'| |].
+  - destruct o'; destruct (c_pend s) as [[[hd|] c0]|] eqn:E; try (eapply IH; eassumption).
+    destruct Hin as [Hin|Hin]; [|eapply IH; eassumption].
+    injection Hin as <- <- <-. cbn [cstep]. rewrite E. cbn [step].
+    rewrite (wait_dead _ _ Hdd). split; reflexivity.
+  - destruct (c_pend s) as [[[hd|] c0]|]; eapply IH; eassumption.
+  - destruct (c_pend s) as [[[hd|] c0]|] eqn:E.
+    + destruct Hp.
+    + destruct Hin as [Hin|Hin]; [injection Hin as <- <- <-; split; reflexivity | eapply IH; eassumption].
+    + eapply IH; eassumption.
+Qed.
+
+Lemma cstep_body s b :
+  cstep s (Other (Body b)) = mkC (c_obj s) (c_now s + b) (c_pend s) (c_outside s).
+Proof. unfold cstep. destruct (c_pend s); reflexivity. Qed.
+
+Lemma cstep_enter s : cstep s (Other Enter) = s.
+Proof. destruct s as [d t pd out]. unfold cstep. cbn [c_pend]. destruct pd; reflexivity. Qed.
+
+(* while the loop thread is blocked and nobody releases: the other thread's
+   bodies move the clock, nothing else changes *)
+Lemma crun_quiet mid : forall s, forallb cquiet mid = true ->
+  crun s mid = mkC (c_obj s) (c_now s + cbodies mid) (c_pend s) (c_outside s).
+Proof.
+  induction mid as [|o mid IH]; intros s H.
+  - cbn. rewrite Z.add_0_r. symmetry. apply conc_eta.
+  - cbn [forallb] in H. apply andb_prop in H. destruct H as [Ho H].
+    rewrite crun_cons.
+    destruct o as [[b| | | |e]| |]; try discriminate Ho.
+    + rewrite IH by exact H. rewrite cstep_body.
+      cbn [c_obj c_now c_pend c_outside cbodies]. f_equal. lia.
+    + rewrite IH by exact H. rewrite cstep_enter. reflexivity.
+Qed.
+
+(* on a released object the other thread's free()/__exit__/__enter__ change
+   nothing at all *)
+Lemma cstep_instant_dead s o : dead (c_obj s) -> cinstant o = true -> cstep s o = s.
+Proof.
+  destruct s as [d t pd out]. cbn [c_obj]. intros [Hl Ha] Ho.
+  destruct o as [[b| | | |e]| |]; try discriminate Ho; unfold cstep; cbn [c_pend c_obj c_now c_outside];
+    destruct pd; cbn [step enter exit_ fst snd]; unfold free; rewrite ?Hl; reflexivity.
+Qed.
+
+Lemma crun_instant_dead zs : forall s, dead (c_obj s) -> forallb cinstant zs = true -> crun s zs = s.
+Proof.
+  induction zs as [|o zs IH]; intros s Hd H; [reflexivity|].
+  cbn [forallb] in H. apply andb_prop in H. destruct H as [Ho H].
+  rewrite crun_cons, (cstep_instant_dead s o Hd Ho). apply IH; assumption.
+Qed.
+
+Lemma clog_no_wait h : forall s,
+  forallb (fun o => cquiet o || cinstant o || crel o) h = true -> clog s h = [].
+Proof.
+  induction h as [|o h IH]; intros s H; [reflexivity|].
+  cbn [forallb] in H. apply andb_prop in H. destruct H as [Ho H].
+  cbn [clog].
+  destruct o as [[b| | | |e]| |]; try discriminate Ho; destruct (c_pend s) as [[[hd|] c]|]; apply IH, H.
+Qed.
+
+(* THE SHUTDOWN: after any history [pre] that leaves the object live and no
+   wait() in progress, the loop thread calls wait(); while it is blocked the
+   other thread lets time pass ([mid]), then releases the object ([rel]: free(),
+   __del__ or __exit__ in any way), maybe repeats that or enters again ([zs]);
+   the HAL call returns.  Then anything ([post]). *)
+Lemma interrupted_wait p t0 pre mid rel zs post :
+  let s0 := cinit (create p t0) t0 in
+  let s1 := crun s0 pre in
+  let h := pre ++ [WaitBegin] ++ mid ++ [Other rel] ++ zs ++ [WaitEnd] in
+  let s := crun s0 h in
+  c_pend s1 = None -> live (c_obj s1) = true ->
+  forallb cquiet mid = true -> is_free rel = true -> forallb cinstant zs = true ->
+  clog s0 h = clog s0 pre ++ [(c_now s1, c_now s1 + cbodies mid, false)] /\
+  c_now s = c_now s1 + cbodies mid /\
+  (live (c_obj s) = false /\ alarm (c_obj s) = None /\ released (c_obj s) = 1%nat) /\
+  c_pend s = None /\ c_outside s = c_outside s1 /\
+  (forall c t e, In (c, t, e) (clog s post) -> t = c /\ e = false) /\
+  (live (c_obj (crun s post)) = false /\ alarm (c_obj (crun s post)) = None /\
+   released (c_obj (crun s post)) = 1%nat).
+Proof.
+  cbv zeta. intros Hp Hl Hmid Hrel Hzs.
+  set (s0 := cinit (create p t0) t0) in *. set (s1 := crun s0 pre) in *.
+  pose proof (crun_rel_inv pre s0 (create_rel_inv p t0)) as Hi. fold s1 in Hi.
+  (* the states along the history *)
+  set (s2 := cstep s1 WaitBegin).
+  assert (E2 : s2 = mkC (c_obj s1) (c_now s1) (Some (Some true, c_now s1)) (c_outside s1)).
+  { unfold s2, cstep. rewrite Hp. unfold wait_begin. rewrite Hl. reflexivity. }
+  set (s3 := crun s2 mid).
+  assert (E3 : s3 = mkC (c_obj s1) (c_now s1 + cbodies mid) (Some (Some true, c_now s1)) (c_outside s1)).
+  { unfold s3. rewrite (crun_quiet mid s2 Hmid), E2. reflexivity. }
+  set (s4 := cstep s3 (Other rel)).
+  assert (E4 : s4 = mkC (free (c_obj s1)) (c_now s1 + cbodies mid) (Some (Some true, c_now s1)) (c_outside s1)).
+  { unfold s4. rewrite E3. destruct rel; try discriminate Hrel; reflexivity. }
+  destruct (free_makes_dead (c_obj s1) Hi) as [Hd Hr].
+  set (s5 := crun s4 zs).
+  assert (E5 : s5 = s4).
+  { unfold s5. apply crun_instant_dead; [rewrite E4; exact Hd | exact Hzs]. }
+  set (s6 := cstep s5 WaitEnd).
+  assert (Es : crun s0 (pre ++ [WaitBegin] ++ mid ++ [Other rel] ++ zs ++ [WaitEnd]) = s6).
+  { rewrite crun_app. fold s1. cbn [app]. rewrite crun_cons. fold s2.
+    rewrite crun_app. fold s3. cbn [app]. rewrite crun_cons. fold s4.
+    rewrite crun_app. fold s5. reflexivity. }
+  destruct Hd as [Hdl Hda].
+  assert (E6 : s6 = mkC (mkND (period (free (c_obj s1))) (expiry (free (c_obj s1)) + period (free (c_obj s1)))
+                              false None 1)
+                        (c_now s1 + cbodies mid) None (c_outside s1)).
+  { unfold s6. rewrite E5, E4. unfold cstep. cbn [c_pend c_obj c_now c_outside].
+    unfold wait_end, hal_update, hal_wait. rewrite Hda, Hdl, Hr. reflexivity. }
+  assert (Hcd : cdead s6).
+  { rewrite E6. repeat split. }
+  rewrite Es.
+  split; [|split; [|split; [|split; [|split; [|split]]]]].
+  - assert (L1 : clog s1 [WaitBegin] = [])
+      by (cbn [clog]; destruct (c_pend s1) as [[[?|] ?]|]; reflexivity).
+    assert (L2 : clog s2 mid = []).
+    { apply clog_no_wait, forallb_forall. intros o Ho.
+      rewrite (proj1 (forallb_forall _ _) Hmid o Ho). reflexivity. }
+    assert (L3 : clog s3 [Other rel] = []).
+    { apply clog_no_wait. cbn [forallb crel]. rewrite Hrel, !orb_true_r. reflexivity. }
+    assert (L4 : clog s4 zs = []).
+    { apply clog_no_wait, forallb_forall. intros o Ho.
+      rewrite (proj1 (forallb_forall _ _) Hzs o Ho), orb_true_r. reflexivity. }
+    assert (L5 : clog s5 [WaitEnd] = [(c_now s1, c_now s1 + cbodies mid, false)]).
+    { rewrite E5, E4. cbn [clog c_pend cstep c_now c_obj].
+      unfold wait_end, hal_wait. rewrite Hda. reflexivity. }
+    rewrite clog_app. fold s1. f_equal.
+    rewrite (clog_app [WaitBegin]). change (crun s1 [WaitBegin]) with s2. rewrite L1.
+    rewrite clog_app. fold s3. rewrite L2.
+    rewrite (clog_app [Other rel]). change (crun s3 [Other rel]) with s4. rewrite L3.
+    rewrite clog_app. fold s5. rewrite L4. exact L5.
+  - rewrite E6. reflexivity.
+  - rewrite E6. repeat split.
+  - rewrite E6. reflexivity.
+  - rewrite E6. reflexivity.
+  - apply clog_cdead, Hcd.
+  - destruct (crun_cdead post s6 Hcd) as ([A B] & C & _). repeat split; assumption.
+Qed.
+
+(* ------------------------------------------------------------------ *)
+(* the two-thread model extends the sequential one: a wait() whose halves run
+   with nothing in between is wait(), so a sequential use, seen as a two-thread
+   history, ends in the same object at the same time with the same log *)
+Lemma cstep_other_idle s o : c_pend s = None ->
+  cstep s (Other o) = mkC (fst (step (c_obj s, c_now s) o)) (snd (step (c_obj s, c_now s) o)) None (c_outside s).
+Proof. intros Hp. unfold cstep. rewrite Hp. destruct o; reflexivity. Qed.
+
+Lemma cstep_wait_halves s : c_pend s = None -> rel_inv (c_obj s) ->
+  cstep (cstep s WaitBegin) WaitEnd =
+    mkC (fst (wait (c_obj s) (c_now s))) (snd (wait (c_obj s) (c_now s))) None (c_outside s) /\
+  clog s [WaitBegin; WaitEnd] = [(c_now s, snd (wait (c_obj s) (c_now s)), false)].
+Proof.
+  destruct s as [d t pd out]. cbn [c_pend c_obj c_now c_outside]. intros -> Hi.
+  rewrite (wait_is_halves _ t Hi).
+  cbn [clog cstep c_pend c_obj c_now c_outside]. unfold wait_begin.
+  destruct (live d) eqn:Hl; cbn [clog cstep c_pend c_obj c_now c_outside fst snd]; split; reflexivity.
+Qed.
+
+Lemma conc_extends_seq ops : forall s,
+  c_pend s = None -> rel_inv (c_obj s) ->
+  crun s (seq_cops ops) =
+    mkC (fst (final (c_obj s, c_now s) ops)) (snd (final (c_obj s, c_now s) ops)) None (c_outside s) /\
+  clog s (seq_cops ops) =
+    map (fun r : Z * Z => (fst r, snd r, false)) (wait_log (c_obj s, c_now s) ops).
+Proof.
+  induction ops as [|o ops IH]; intros s Hp Hi.
+  - cbn. split; [|reflexivity]. rewrite <- Hp. symmetry. apply conc_eta.
+  - assert (Hstep : forall o', o' <> Wait -> seq_cops (o' :: ops) = Other o' :: seq_cops ops)
+      by (intros o' Ho; destruct o'; try reflexivity; congruence).
+    pose proof (step_rel_inv (c_obj s) (c_now s) o Hi) as Hi'.
+    assert (Hother : o <> Wait ->
+      crun s (seq_cops (o :: ops)) =
+        mkC (fst (final (c_obj s, c_now s) (o :: ops))) (snd (final (c_obj s, c_now s) (o :: ops))) None (c_outside s) /\
+      clog s (seq_cops (o :: ops)) =
+        map (fun r : Z * Z => (fst r, snd r, false)) (wait_log (c_obj s, c_now s) (o :: ops))).
+    { intros Ho. rewrite (Hstep o Ho), crun_cons. cbn [clog]. rewrite Hp.
+      rewrite (cstep_other_idle s o Hp).
+      set (s' := mkC (fst (step (c_obj s, c_now s) o)) (snd (step (c_obj s, c_now s) o)) None (c_outside s)).
+      destruct (IH s' eq_refl Hi') as [A B].
+      unfold final. cbn [fold_left]. fold (final (step (c_obj s, c_now s) o) ops).
+      cbn [c_obj c_now c_outside s'] in A, B. rewrite <- surjective_pairing in A, B.
+      split.
+      - exact A.
+      - destruct o; try congruence; cbn [wait_log]; exact B. }
+    destruct o; try (apply Hother; discriminate).
+    change (seq_cops (Wait :: ops)) with (WaitBegin :: WaitEnd :: seq_cops ops).
+    destruct (cstep_wait_halves s Hp Hi) as [E L].
+    rewrite !crun_cons, E.
+    change (WaitBegin :: WaitEnd :: seq_cops ops) with ([WaitBegin; WaitEnd] ++ seq_cops ops).
+    rewrite clog_app, L. change (crun s [WaitBegin; WaitEnd]) with (cstep (cstep s WaitBegin) WaitEnd).
+    rewrite E.
+    set (s' := mkC (fst (wait (c_obj s) (c_now s))) (snd (wait (c_obj s) (c_now s))) None (c_outside s)).
+    destruct (IH s' eq_refl Hi') as [A B].
+    unfold final. cbn [fold_left step]. fold (final (wait (c_obj s) (c_now s)) ops).
+    cbn [c_obj c_now c_outside s'] in A, B. rewrite <- surjective_pairing in A, B.
+    split; [exact A|]. cbn [wait_log step map app fst snd]. f_equal. exact B.
+Qed.
+
+(* ------------------------------------------------------------------ *)
+(* while nobody releases the object, what the other thread does during a
+   wait() does not disturb the grid: the history amounts to the sequential use
+   [lin h] *)
+Definition pending_now (s : conc) : bool :=
+  match c_pend s with Some _ => true | None => false end.
+
+Lemma conc_no_release_is_seq h : forall s,
+  live (c_obj s) = true -> released (c_obj s) = 0%nat ->
+  (c_pend s = None \/ exists c, c_pend s = Some (Some true, c)) ->
+  cwf (pending_now s) h = true -> existsb crel h = false ->
+  c_obj (crun s h) = fst (final (c_obj s, c_now s) (lin h)) /\
+  c_now (crun s h) = snd (final (c_obj s, c_now s) (lin h)) /\
+  map (fun r : Z * Z * bool => snd (fst r)) (clog s h) = map snd (wait_log (c_obj s, c_now s) (lin h)).
+Proof.
+  induction h as [|o h IH]; intros s Hl Hr Hp Hw Hn.
+  - cbn. repeat split.
+  - cbn [existsb] in Hn. apply orb_false_elim in Hn. destruct Hn as [Hn0 Hn].
+    rewrite crun_cons.
+    destruct o as [[b| | | |e]| |]; try discriminate Hn0.
+    + (* the other thread's time *)
+      cbn [cwf] in Hw.
+      assert (Hc' : clog s (Other (Body b) :: h) = clog (cstep s (Other (Body b))) h)
+        by (cbn [clog]; destruct (c_pend s) as [[[?|] ?]|]; reflexivity).
+      rewrite Hc', cstep_body.
+      assert (Hw' : cwf (pending_now (mkC (c_obj s) (c_now s + b) (c_pend s) (c_outside s))) h = true) by exact Hw.
+      specialize (IH (mkC (c_obj s) (c_now s + b) (c_pend s) (c_outside s)) Hl Hr Hp Hw' Hn).
+      cbn [c_obj c_now] in IH. cbn [lin flat_map app]. fold (lin h).
+      unfold final in *. cbn [fold_left step wait_log]. exact IH.
+    + (* a whole wait() *)
+      cbn [cwf] in Hw. apply andb_prop in Hw. destruct Hw as [Hin Hw].
+      assert (Hp0 : c_pend s = None) by (unfold pending_now in Hin; destruct (c_pend s); [discriminate|reflexivity]).
+      assert (Hc' : clog s (Other Wait :: h) =
+                    (c_now s, snd (wait (c_obj s) (c_now s)), false) :: clog (cstep s (Other Wait)) h).
+      { cbn [clog]. rewrite Hp0. rewrite (cstep_other_idle s Wait Hp0). reflexivity. }
+      rewrite Hc'. rewrite (cstep_other_idle s Wait Hp0) in *. cbn [step] in *.
+      set (s' := mkC (fst (wait (c_obj s) (c_now s))) (snd (wait (c_obj s) (c_now s))) None (c_outside s)) in *.
+      assert (Hw' : cwf (pending_now s') h = true)
+        by (unfold pending_now in *; rewrite Hp0 in Hw; exact Hw).
+      specialize (IH s').
+      cbn [c_obj c_now c_pend s'] in IH. rewrite wait_live, wait_released in IH.
+      specialize (IH Hl Hr (or_introl eq_refl) Hw' Hn).
+      rewrite <- surjective_pairing in IH.
+      cbn [lin flat_map app]. fold (lin h).
+      unfold final in *. cbn [fold_left step wait_log map fst snd].
+      destruct IH as (A & B & C). repeat split; try assumption. f_equal. exact C.
+    + (* __enter__ by the other thread *)
+      cbn [cwf] in Hw.
+      assert (Hc' : clog s (Other Enter :: h) = clog (cstep s (Other Enter)) h)
+        by (cbn [clog]; destruct (c_pend s) as [[[?|] ?]|]; reflexivity).
+      rewrite Hc'. rewrite cstep_enter.
+      specialize (IH s Hl Hr Hp Hw Hn).
+      cbn [lin flat_map app]. fold (lin h).
+      unfold final in *. cbn [fold_left step wait_log enter fst]. exact IH.
+    + (* first half *)
+      cbn [cwf] in Hw. apply andb_prop in Hw. destruct Hw as [Hin Hw].
+      assert (Hp0 : c_pend s = None) by (unfold pending_now in Hin; destruct (c_pend s); [discriminate|reflexivity]).
+      assert (Hc' : clog s (WaitBegin :: h) = clog (cstep s WaitBegin) h)
+        by (cbn [clog]; try rewrite Hp0; reflexivity).
+      rewrite Hc'.
+      assert (Es : cstep s WaitBegin = mkC (c_obj s) (c_now s) (Some (Some true, c_now s)) (c_outside s))
+        by (unfold cstep, wait_begin; rewrite Hp0, Hl; reflexivity).
+      rewrite Es.
+      specialize (IH (mkC (c_obj s) (c_now s) (Some (Some true, c_now s)) (c_outside s)) Hl Hr
+                     (or_intror (ex_intro _ (c_now s) eq_refl)) Hw Hn).
+      cbn [lin flat_map app]. fold (lin h). exact IH.
+    + (* second half *)
+      cbn [cwf] in Hw. apply andb_prop in Hw. destruct Hw as [Hin Hw].
+      destruct Hp as [Hp0|[c Hp1]]; [unfold pending_now in Hin; rewrite Hp0 in Hin; discriminate|].
+      assert (Ew : wait_end (c_obj s) true (c_now s) = (fst (wait (c_obj s) (c_now s)), snd (wait (c_obj s) (c_now s)), false)).
+      { unfold wait, wait_end, hal_update. rewrite Hl, Hr. reflexivity. }
+      assert (Es : cstep s WaitEnd =
+                   mkC (fst (wait (c_obj s) (c_now s))) (snd (wait (c_obj s) (c_now s))) None (c_outside s))
+        by (unfold cstep; rewrite Hp1, Ew; reflexivity).
+      assert (Hc' : clog s (WaitEnd :: h) =
+                    (c, snd (wait (c_obj s) (c_now s)), false) :: clog (cstep s WaitEnd) h).
+      { cbn [clog]. rewrite Hp1, Es, Ew. reflexivity. }
+      rewrite Hc', Es.
+      set (s' := mkC (fst (wait (c_obj s) (c_now s))) (snd (wait (c_obj s) (c_now s))) None (c_outside s)) in *.
+      specialize (IH s').
+      cbn [c_obj c_now c_pend s'] in IH. rewrite wait_live, wait_released in IH.
+      specialize (IH Hl Hr (or_introl eq_refl) Hw Hn).
+      rewrite <- surjective_pairing in IH.
+      cbn [lin flat_map app]. fold (lin h).
+      unfold final in *. cbn [fold_left step wait_log map fst snd].
+      destruct IH as (A & B & C). repeat split; try assumption. f_equal. exact C.
+Qed.
+
+Lemma no_release_lin h : existsb crel h = false -> no_release (lin h) = true.
+Proof.
+  induction h as [|o h IH]; intros H; [reflexivity|].
+  cbn [existsb] in H. apply orb_false_elim in H. destruct H as [Ho H].
+  destruct o as [o'| |]; cbn [lin flat_map app]; fold (lin h).
+  - cbn [crel] in Ho. unfold no_release. cbn [forallb]. rewrite Ho. cbn. apply IH, H.
+  - apply IH, H.
+  - unfold no_release. cbn [forallb is_free negb andb]. apply IH, H.
+Qed.
+
+(* stated for the object the constructor builds: in ANY well-bracketed history
+   of two threads in which nobody releases the object -- the other thread lets
+   time pass or enters a with-block while the loop thread is inside wait() --
+   the (i+1)-th wait() is left, without exception, at max(c', t0 + (i+1)*p)
+   where c' is the instant at which its second half runs (for a whole wait():
+   at which it is called): never before the grid point, exactly on it when that
+   instant is not later *)
+Lemma conc_any_use_on_grid p t0 h i c t e :
+  cwf false h = true -> existsb crel h = false ->
+  nth_error (clog (cinit (create p t0) t0) h) i = Some (c, t, e) ->
+  e = false /\ grid t0 p (S i) <= t /\
+  exists c', nth_error (wait_log (create p t0, t0) (lin h)) i = Some (c', t) /\
+             t = Z.max c' (grid t0 p (S i)).
+Proof.
+  intros Hw Hn H.
+  split; [eapply conc_never_raises, nth_error_In, H|].
+  destruct (conc_no_release_is_seq h (cinit (create p t0) t0) eq_refl eq_refl (or_introl eq_refl) Hw Hn)
+    as (_ & _ & C).
+  cbn [cinit c_obj c_now] in C.
+  assert (Ht : nth_error (map (fun r : Z * Z * bool => snd (fst r)) (clog (cinit (create p t0) t0) h)) i = Some t)
+    by (apply (map_nth_error (fun r : Z * Z * bool => snd (fst r)) _ _ H)).
+  rewrite C in Ht.
+  destruct (nth_error (wait_log (create p t0, t0) (lin h)) i) as [[c' t']|] eqn:E.
+  - apply (map_nth_error snd) in E as E'. rewrite Ht in E'. injection E' as ->.
+    destruct (any_use_on_grid p t0 (lin h) i c' t' (no_release_lin h Hn) E) as (A & B & _).
+    split; [exact B|]. exists c'. split; [reflexivity | exact A].
+  - exfalso. apply nth_error_None in E. rewrite <- (map_length snd) in E.
+    apply nth_error_None in E. congruence.
+Qed.
+
+Lemma conc_any_use_expiry p t0 h :
+  cwf false h = true -> existsb crel h = false ->
+  let s := crun (cinit (create p t0) t0) h in
+  expiry (c_obj s) = grid t0 p (S (length (clog (cinit (create p t0) t0) h))) /\
+  alarm (c_obj s) = Some (expiry (c_obj s)) /\ live (c_obj s) = true /\
+  period (c_obj s) = p /\ released (c_obj s) = 0%nat.
+Proof.
+  intros Hw Hn. cbv zeta.
+  destruct (conc_no_release_is_seq h (cinit (create p t0) t0) eq_refl eq_refl (or_introl eq_refl) Hw Hn)
+    as (A & _ & C).
+  cbn [cinit c_obj c_now] in A, C. rewrite A.
+  assert (L : length (clog (cinit (create p t0) t0) h) = length (wait_log (create p t0, t0) (lin h))).
+  { rewrite <- (map_length (fun r : Z * Z * bool => snd (fst r))), C. apply map_length. }
+  rewrite L. apply (any_use_expiry p t0 (lin h) (no_release_lin h Hn)).
+Qed.
